@@ -305,7 +305,7 @@ var c15Degeneracies = []string{
 	"key-type-vs-material", "ed25519-short", "ed25519-nonhex", "key-garbage-pem", "rootca-garbage", "intermediate-garbage", "ca-entry-holds-key", "ca-entry-holds-key", "link-self-referential-sublayout", "empty-run", "name-glob", "name-separator", "name-dotdot",
 	"duplicate-step", "steps-null", "inspect-null", "keys-null", "expected-null", "huge-readme", "verifier-key-short", "verifier-key-mismatch", "step-and-inspection-same-name",
 	"link-garbage", "link-empty-object", "link-null-members", "link-bad-cert", "link-pubkey-as-cert", "link-unauthorised-sublayout", "link-authorised-sublayout-no-dir",
-	"truncated-match-rule:5", "truncated-match-rule:7", "truncated-match-rule:9", "truncated-match-rule:10", "truncated-match-rule:11", "truncated-match-rule:3", "linkdir-is-workdir-fifo", "linkdir-is-workdir-symlink-to-fifo", "link-dir", "link-dangling-symlink", "link-fifo", "link-symlink-to-fifo", "link-symlink-to-dir", "link-wrong-shape", "link-materials-null", "link-name-mismatch", "link-sig-garbage", "link-many-sigs", "constraint-odd", "cert-link-odd-constraints", "cert-link-odd-constraints",
+	"truncated-match-rule:5", "truncated-match-rule:7", "truncated-match-rule:9", "truncated-match-rule:10", "truncated-match-rule:11", "truncated-match-rule:3", "linkdir-is-workdir-fifo", "linkdir-is-workdir-symlink-to-fifo", "link-dir", "link-dangling-symlink", "link-fifo", "link-symlink-to-fifo", "link-symlink-to-dir", "link-wrong-shape", "link-materials-null", "link-name-mismatch", "link-sig-garbage", "link-many-sigs", "link-short-sig-first", "link-short-sig-first", "cert-only-layout", "cert-only-layout", "constraint-odd", "cert-link-odd-constraints", "cert-link-odd-constraints",
 	"name-glob-shorter-match", "name-many-stars", "key-public-is-private", "key-private-is-public", "verifier-key-public-is-private",
 }
 
@@ -576,6 +576,36 @@ func c15Apply(w hx.World, kinds []string) hx.World {
 					links[i].Sigs = []hx.WSig{{Key: "ed25519-3", ClaimID: ""}, {Key: f.Sigs[0].Key, Forge: "other-content"}, {Key: f.Sigs[0].Key}, {Key: "ecdsa-p384-1", ClaimID: "pool:" + f.Sigs[0].Key}}
 				}
 			}
+		case "link-short-sig-first":
+			// entries of one key of different lengths: a cut-off one (or an undecodable one) in front of the real one
+			for i, f := range links {
+				if f.Meta.Link != nil && f.Meta.Link.Name == s0.Name && len(f.Sigs) > 0 && !strings.HasPrefix(f.Sigs[0].Key, "pki:") {
+					first := hx.WSig{Key: f.Sigs[0].Key, Forge: []string{"short", "garbage"}[i%2]}
+					links[i].Sigs = []hx.WSig{first, {Key: f.Sigs[0].Key}, {Key: f.Sigs[0].Key, Forge: "other-content"}}
+				}
+			}
+		case "cert-only-layout":
+			// nobody is authorised by key: the layout has no keys at all (null), one step is done by a
+			// certificate functionary whose link is in order
+			w.PKI = c02PKI()
+			if certs, err := hx.BuildPKI(w.PKI); err == nil {
+				rk := hx.MKeyFromLib(certs["root"].KeyObject())
+				ik := hx.MKeyFromLib(certs["inter"].KeyObject())
+				lay.RootCas = hx.MKeys{rk.KeyID: rk}
+				lay.IntermediateCas = hx.MKeys{ik.KeyID: ik}
+				lay.Keys = nil
+				s0.Constraints = []hx.MConstraint{{CommonName: "*", DNSNames: []string{"*"}, Emails: []string{"*"}, Organizations: []string{"*"}, Roots: []string{"*"}, URIs: []string{"*"}}}
+				var proto *hx.MLink
+				for _, f := range links {
+					if f.Meta.Link != nil && f.Meta.Link.Name == s0.Name {
+						proto = f.Meta.Link
+					}
+				}
+				if proto != nil {
+					l := *proto
+					links = append(links, hx.WMetaFile{Name: hx.LinkFileName(s0.Name, certs["leaf1"].Key.KeyID), Wrapper: "legacy", Meta: hx.MMeta{Link: &l}, Sigs: []hx.WSig{{Key: "pki:leaf1", WithCert: true}}})
+				}
+			}
 		case "cert-link-odd-constraints":
 			// a certificate-signed link meets constraints with null / empty / odd lists
 			w.PKI = c02PKI()
@@ -710,7 +740,7 @@ func TestC15(t *testing.T) {
 	}
 	hx.Check[c15WorldCase]{
 		Property: "C15", Part: "worlds",
-		Rule:  "properly signed degenerate layouts and hostile link directories verified end to end in an isolated process (both entry points, both wrappers): 1-3 of 46 degeneracies (empty / one-token rules, thresholds <=0 or huge, steps without links, undefined or contradictory or malformed keys, garbage certificates, empty run, names with glob metacharacters / separators, duplicate and null collections, hostile verifier keys; garbage / wrong-shape / null-member link files, garbage or key-as-certificate entries, unauthorised and directory-less sublayouts, directories, dangling symlinks and FIFOs named like links); non-trivial = the layout loads and verification proper is reached; distinct by (degeneracies, wrapper, entry)",
+		Rule:  "properly signed degenerate layouts and hostile link directories verified end to end in an isolated process (both entry points, both wrappers): 1-3 of 48 degeneracies (empty / one-token rules, thresholds <=0 or huge, steps without links, undefined or contradictory or malformed keys, garbage certificates, empty run, names with glob metacharacters / separators, duplicate and null collections, hostile verifier keys; garbage / wrong-shape / null-member link files, garbage or key-as-certificate entries, unauthorised and directory-less sublayouts, directories, dangling symlinks and FIFOs named like links); non-trivial = the layout loads and verification proper is reached; distinct by (degeneracies, wrapper, entry)",
 		Cases: hx.Pick(250, 40000),
 		Gen:   c15GenWorld, Run: c15RunWorld,
 	}.Execute(t)
